@@ -34,23 +34,29 @@ class HintTie(Tie):
     def run_impl(self, cpp, cases):
         outs = super().run_impl(cpp, cases)
         res = []
+        hl = []
         for c, o in zip(cases, outs):
             obs, _, h = o.partition(" ##")
             self.hints[c] = h
+            hl.append(h)
             res.append(self.canon(obs))
+        # the same script can occur twice in a run with different hints (the mempool sequence at its start): keep them by position
+        self.last_cases, self.last_hints = list(cases), hl
         return res
 
-    def aug(self, c):
-        return c + " ##" + self.hints.get(c, "")
+    def aug_all(self, cases):
+        if getattr(self, "last_cases", None) == list(cases):
+            return [c + " ##" + h for c, h in zip(cases, self.last_hints)]
+        return [c + " ##" + self.hints.get(c, "") for c in cases]
 
     def run_model(self, mdl, cases):
-        rc, out, err = core.run_lines(mdl, ["model"], [self.aug(c) for c in cases], self.timeout)
+        rc, out, err = core.run_lines(mdl, ["model"], self.aug_all(cases), self.timeout)
         if len(out) != len(cases):
             raise core.InfraError("model driver returned %d lines for %d cases (rc=%s)\nstderr: %s" % (len(out), len(cases), rc, err[-2000:]))
         return [self.canon(o) for o in out]
 
     def run_holds(self, mdl, cases, impl):
-        lines = [self.aug(c) + " => " + i for c, i in zip(cases, impl)]
+        lines = [a + " => " + i for a, i in zip(self.aug_all(cases), impl)]
         rc, out, err = core.run_lines(mdl, ["holds"], lines, self.timeout)
         if len(out) != len(cases):
             raise core.InfraError("model driver (holds) returned %d lines for %d cases\nstderr: %s" % (len(out), len(cases), err[-2000:]))
@@ -73,7 +79,7 @@ def split_ops(w, arity):
 def shrink_relay(case):
     ops = split_ops(case.split(), ARITY_R)
     for i in range(len(ops) - 1, -1, -1):
-        if ops[i][0] != "peer":
+        if ops[i][0] not in ("peer", "pconn"):     # connection indices must stay valid
             yield " ".join(" ".join(o) for o in ops[:i] + ops[i + 1:])
 
 
